@@ -14,8 +14,8 @@ RULE = ("one case = (method or Richardson wrapper, direction, history shape, dt/
 ASSUMPTIONS = ["interior bound: 4*(h^4*max|y''''|/384 + node error*(1+h*L)) + rounding; Richardson wrappers are compared at K*tolerance"]
 FLOORS = {"quick": {"quiescent_checks": 150, "pieces_checked": 2000, "queries_checked": 8000, "backward_runs_10_pieces": 20, "post_terminal_objects": 10,
                     "post_failure_objects": 10, "splitting_runs": 4, "richardson_runs": 3, "failures_inside_a_retry": 3},
-          "thorough": {"quiescent_checks": 1500, "pieces_checked": 20000, "queries_checked": 80000, "backward_runs_10_pieces": 200, "post_terminal_objects": 100,
-                       "post_failure_objects": 100, "splitting_runs": 40, "richardson_runs": 30, "failures_inside_a_retry": 30}}
+          "thorough": {"quiescent_checks": 800, "pieces_checked": 20000, "queries_checked": 50000, "backward_runs_10_pieces": 90, "post_terminal_objects": 50,
+                       "post_failure_objects": 50, "splitting_runs": 40, "richardson_runs": 30, "failures_inside_a_retry": 10}}
 HISTORIES = ["single", "split", "terminal_continue", "fail_resume", "events_nonterminal", "query_between", "fail_in_retry"]
 QUICK_METHODS = ["RK45CKSolver", "DOPRI45", "RK4Solver", "EulerSolver", "HeunEulerSolver", "RK8713MSolver", "ABAs5o6HSolver", "SymplecticEulerSolver",
                  "BABs9o7HSolver", "BackwardEuler", "RadauIIA5", "GaussLegendre4", "CrankNicolson", "LobattoIIIC4", "MidpointSolver", "RK108Solver"]
